@@ -157,6 +157,10 @@ def run_property(prop, obligations, tier, seed=0, workers=None, assumptions=(), 
             print("NOTE: known finding %s no longer reproduces (stale entry): %s" % (k["code"], (res or {}).get("outcome")), flush=True)
 
     # (b) exploration
+    cap = os.environ.get("VERIF_BUDGET_S")
+    if cap:
+        for ob in obligations:
+            ob.budget_s = min(ob.budget_s, float(cap))
     tasks = []
     for ob in obligations:
         for pins in _pin_combos(ob.split):
